@@ -450,6 +450,17 @@ func (lb *LoadBalancer) AddBackend(backendCfg config.BackendConfig) error {
 	// declares its length (by default only unknown-length and event-stream
 	// responses are flushed before the body ends)
 	proxy.FlushInterval = -1
+	// The proxy forwards a copy of the request that is made before the body
+	// has been read, while the values of announced trailer fields only arrive
+	// behind the body: forward the inbound request's own trailer map, which
+	// is complete by the time the transport writes the trailers
+	director := proxy.Director
+	proxy.Director = func(out *http.Request) {
+		director(out)
+		if t, ok := out.Context().Value(inboundTrailerKey{}).(http.Header); ok {
+			out.Trailer = t
+		}
+	}
 
 	// Configure custom transport with timeouts (LEETCODE-STYLE OPTIMIZATION!)
 	dialTimeout := time.Duration(lb.config.Server.Timeouts.BackendDial) * time.Second
@@ -781,6 +792,10 @@ func (lb *LoadBalancer) proxyRequest(backend *Backend, w http.ResponseWriter, r 
 		r = r.WithContext(ctx)
 	}
 
+	if len(r.Trailer) > 0 {
+		r = r.WithContext(context.WithValue(r.Context(), inboundTrailerKey{}, r.Trailer))
+	}
+
 	// Forward the request to the selected backend
 	backend.ReverseProxy.ServeHTTP(rw, r)
 	completed = true
@@ -794,6 +809,9 @@ func (lb *LoadBalancer) proxyRequest(backend *Backend, w http.ResponseWriter, r 
 	}
 	return nil
 }
+
+// inboundTrailerKey carries the client request's trailer map to the proxy's director
+type inboundTrailerKey struct{}
 
 // handlerTimeout is server.timeouts.handler (default 30s, as documented)
 func (lb *LoadBalancer) handlerTimeout() time.Duration {
